@@ -1,7 +1,7 @@
 (* C19 -- property theorems only.  Proofs live in C19/Proofs*.v. *)
 From Coq Require Import NArith List.
 From DV Require Import Base.Outcome Base.Bytes Base.Names Base.PName C19.Gen C19.Model
-  C19.ModelCmp C19.ProofsDec C19.ProofsOld C19.ProofsNew C19.ProofsAgree C19.ProofsCmp C19.ProofsCmpSound C19.ProofsCmpInv C19.ProofsRev.
+  C19.ModelCmp C19.ProofsDec C19.ProofsOld C19.ProofsNew C19.ProofsAgree C19.ProofsCmp C19.ProofsCmpSound C19.ProofsCmpInv C19.ProofsRev C19.ModelEdns C19.ProofsItems C19.ProofsEdns C01.Model C05.OptModel.
 Import ListNotations.
 Local Open Scope N_scope.
 
@@ -145,3 +145,63 @@ Theorem C19_rev_reader_is_path : forall h c, length h = 12%nat -> wf_bytes c -> 
      rev_split c start = Ok (rev_wire n, e - 12)).
 Proof. exact rev_split_is_path. Qed.
 Print Assumptions C19_rev_reader_is_path.
+
+(* Question / Record of the new API against C01's model of the old
+   Question::parse / ParsedRecord::parse: whatever the new reader returns the old
+   one returns (same owner labels, fields, RDATA extent, end), and outside the
+   known classes of the owner name the converse holds *)
+Theorem C19_question_new_to_old : forall h c, length h = 12%nat -> wf_bytes c ->
+  forall start w ty cl e, new_question c start = Ok (w, ty, cl, e) ->
+  exists q n, question_parse (h ++ c) (12 + start) (mlen (h ++ c)) = Ok q /\
+    pname_labels (h ++ c) (q_name q) = Ok (n, true) /\
+    w = wire_abs n /\ q_type q = ty /\ q_class q = cl /\ q_end q = 12 + e.
+Proof. exact question_new_to_old. Qed.
+Print Assumptions C19_question_new_to_old.
+
+Theorem C19_question_old_to_new : forall h c, length h = 12%nat -> wf_bytes c ->
+  forall start q, kclass (h ++ c) (12 + start) = KNone ->
+  question_parse (h ++ c) (12 + start) (mlen (h ++ c)) = Ok q ->
+  exists n, pname_labels (h ++ c) (q_name q) = Ok (n, true) /\ 16 <= q_end q /\
+    new_question c start = Ok (wire_abs n, q_type q, q_class q, q_end q - 12).
+Proof. exact question_old_to_new. Qed.
+Print Assumptions C19_question_old_to_new.
+
+Theorem C19_record_new_to_old : forall h c, length h = 12%nat -> wf_bytes c ->
+  forall start w ty cl ttl d e, new_record c start = Ok (w, ty, cl, ttl, d, e) ->
+  exists r n, record_parse (h ++ c) (12 + start) (mlen (h ++ c)) = Ok r /\
+    pname_labels (h ++ c) (rr_owner r) = Ok (n, true) /\
+    w = wire_abs n /\ rr_type r = ty /\ rr_class r = cl /\ rr_ttl r = ttl /\
+    rr_data r = 12 + d /\ rr_end r = 12 + e /\ rr_rdlen r = e - d.
+Proof. exact record_new_to_old. Qed.
+Print Assumptions C19_record_new_to_old.
+
+Theorem C19_record_old_to_new : forall h c, length h = 12%nat -> wf_bytes c ->
+  forall start r, kclass (h ++ c) (12 + start) = KNone ->
+  record_parse (h ++ c) (12 + start) (mlen (h ++ c)) = Ok r ->
+  exists n, pname_labels (h ++ c) (rr_owner r) = Ok (n, true) /\ 22 <= rr_data r /\
+    new_record c start = Ok (wire_abs n, rr_type r, rr_class r, rr_ttl r, rr_data r - 12, rr_end r - 12).
+Proof. exact record_old_to_new. Qed.
+Print Assumptions C19_record_old_to_new.
+
+(* the EDNS record of the new API *)
+Theorem C19_edns_roundtrip : forall e b rest, edns_ok e -> nedns_build e = Some b ->
+  nedns_split (b ++ rest) = Ok (e, rest).
+Proof. exact edns_roundtrip. Qed.
+Print Assumptions C19_edns_roundtrip.
+
+Theorem C19_edns_old_view : forall e b, edns_ok e -> nedns_build e = Some b ->
+  firstn 3 b = [0; 0; 41] /\
+  be_val (firstn 2 (skipn 3 b)) = e_udp e /\
+  let ttl := be_val (firstn 4 (skipn 5 b)) in
+  N.shiftr ttl old_opt_ext_shift mod 256 = e_ext e /\
+  N.shiftr ttl old_opt_ver_shift mod 256 = e_ver e /\
+  ttl mod 65536 = e_flags e /\
+  be_val (firstn 2 (skipn 9 b)) = len (e_data e) /\ skipn 11 b = e_data e.
+Proof. exact edns_old_view. Qed.
+Print Assumptions C19_edns_old_view.
+
+(* option framing: the new Opt accepts exactly what C05's model of the old
+   Opt::from_octets + iteration accepts *)
+Theorem C19_edns_framing_agrees : forall b, nopt_ok b = is_ok (opt_parse b).
+Proof. exact edns_framing_agrees. Qed.
+Print Assumptions C19_edns_framing_agrees.
